@@ -595,3 +595,161 @@ def pdb_representable(lines):
                 or not all(-999999 <= ln[k] <= 9999999 for k in "xyz"):
             return False
     return True
+
+
+# ----------------------------------------------------------------------------- corpus (independent tokenizers)
+
+def _dec_milli(text):
+    """Decimal text -> integer milli-units, exactly (no float)."""
+    t = text.strip()
+    neg = t.startswith("-")
+    t = t.lstrip("+-")
+    whole, _, frac = t.partition(".")
+    frac = (frac + "000")[:3]
+    v = int(whole or "0") * 1000 + int(frac)
+    return -v if neg else v
+
+
+def _dec_centi(text):
+    t = text.strip()
+    whole, _, frac = t.partition(".")
+    return int(whole or "0") * 100 + int((frac + "00")[:2])
+
+
+def tokenize_pdb(text):
+    """ATOM/HETATM records of a PDB text -> abstract lines (fixed columns, wwPDB 3.3)."""
+    lines, model = [], 1
+    for raw in text.splitlines():
+        rec = raw[:6]
+        if rec.startswith("MODEL"):
+            model = int(raw[10:14])
+        elif rec in ("ATOM  ", "HETATM"):
+            raw = raw.ljust(80)
+            lines.append({"m": model, "het": 1 if rec == "HETATM" else 0, "ch": raw[21], "num": int(raw[22:26]),
+                          "ic": raw[26].strip(), "rn": raw[17:20].strip(), "an": raw[12:16].strip(),
+                          "alt": raw[16].strip(), "occ": _dec_centi(raw[54:60]), "x": _dec_milli(raw[30:38]),
+                          "y": _dec_milli(raw[38:46]), "z": _dec_milli(raw[46:54]), "lch": raw[21], "lnum": 0,
+                          "lrn": raw[17:20].strip(), "icn": "?", "ocn": "?"})
+    return lines
+
+
+def _cif_tokens(row):
+    out, i, n = [], 0, len(row)
+    while i < n:
+        ch = row[i]
+        if ch in " \t":
+            i += 1
+        elif ch in "'\"":
+            j = i + 1
+            while j < n and not (row[j] == ch and (j + 1 == n or row[j + 1] in " \t")):
+                j += 1
+            out.append(row[i + 1:j])
+            i = j + 1
+        else:
+            j = i
+            while j < n and row[j] not in " \t":
+                j += 1
+            out.append(row[i:j])
+            i = j
+    return out
+
+
+def tokenize_cif(text):
+    """The atom_site loop of an mmCIF text -> abstract lines (single-line rows only)."""
+    rows = text.splitlines()
+    k = 0
+    while k < len(rows) and not rows[k].startswith("_atom_site."):
+        k += 1
+    cols = []
+    while k < len(rows) and rows[k].startswith("_atom_site."):
+        cols.append(rows[k].strip()[len("_atom_site."):])
+        k += 1
+    lines = []
+    while k < len(rows) and rows[k].strip() and not rows[k].startswith("#") and not rows[k].startswith("_") \
+            and not rows[k].startswith("loop_"):
+        tok = _cif_tokens(rows[k])
+        if len(tok) != len(cols):
+            raise lib.MachineryError("corpus mmCIF row does not match the atom_site columns")
+        d = dict(zip(cols, tok))
+        ic, occ = d.get("pdbx_PDB_ins_code", "?"), d.get("occupancy", "?")
+        lines.append({"m": int(d.get("pdbx_PDB_model_num", "1")), "het": 1 if d.get("group_PDB") == "HETATM" else 0,
+                      "ch": d["auth_asym_id"], "num": int(d["auth_seq_id"]), "ic": "" if ic in "?." else ic,
+                      "rn": d["auth_comp_id"], "an": d["label_atom_id"],
+                      "alt": "" if d.get("label_alt_id", ".") in "?." else d["label_alt_id"],
+                      "occ": -1 if occ in "?." else _dec_centi(occ), "x": _dec_milli(d["Cartn_x"]),
+                      "y": _dec_milli(d["Cartn_y"]), "z": _dec_milli(d["Cartn_z"]), "lch": d["label_asym_id"],
+                      "lnum": int(d["label_seq_id"]) if d["label_seq_id"] not in "?." else 0, "lrn": d["label_comp_id"],
+                      "icn": ic if ic in "?." else "?", "ocn": occ if occ in "?." else "?"})
+        k += 1
+    return lines
+
+
+def corpus_lines(name):
+    path = os.path.join(lib.REPO, "tests", name)
+    with open(path) as f:
+        text = f.read()
+    return tokenize_pdb(text) if name.endswith(".pdb") else tokenize_cif(text)
+
+
+def residue_blocks(lines):
+    blocks = []
+    for ln in lines:
+        key = (ln["m"], ln["ch"], ln["num"], ln["ic"], ln["rn"])
+        if blocks and blocks[-1][0] == key:
+            blocks[-1][1].append(ln)
+        else:
+            blocks.append((key, [ln]))
+    return blocks
+
+
+def window(lines, start, count):
+    """`count` consecutive residues of the first model, starting at residue block `start`."""
+    first = lines[0]["m"]
+    blocks = [b for b in residue_blocks(lines) if b[0][0] == first]
+    out = []
+    for _, ls in blocks[start:start + count]:
+        out += [dict(ln) for ln in ls]
+    return out
+
+
+CORPUS_C08 = ["1ATO.pdb", "488d.pdb", "4qln.pdb", "4qln.cif", "1ehz-assembly-1.cif", "2HY9.cif", "6RS3.cif",
+              "1E7K_1_C.cif", "184D.cif", "1JJP.cif", "q-ugg-5k-salt_400-500ns_frame1065.pdb"]
+
+
+def corpus_tables(names, per_file, size, seed):
+    """Corpus-derived tables: windows of corpus residues (the ones holding alternate locations
+    first), re-emitted as written, with the model duplicated (shared identities, far away and
+    NMR-like) and with renumbered models."""
+    rng = random.Random(seed * 7 + 1)
+    tables = []
+    for name in names:
+        try:
+            lines = corpus_lines(name)
+        except FileNotFoundError as e:
+            raise lib.MachineryError(f"corpus file missing: {name}") from e
+        if not lines:
+            continue
+        first = lines[0]["m"]
+        blocks = [b for b in residue_blocks(lines) if b[0][0] == first]
+        alt_at = [k for k, b in enumerate(blocks) if any(ln["alt"] for ln in b[1])]
+        starts = []
+        if alt_at:
+            starts.append(max(0, alt_at[0] - 1))
+        while len(starts) < per_file:
+            starts.append(rng.randrange(0, max(1, len(blocks) - size)))
+        for w, st in enumerate(starts[:per_file]):
+            base = window(lines, st, size)
+            if not base:
+                continue
+            for variant in ("asis", "two-far", "two-near", "renumbered"):
+                if variant == "asis":
+                    t = base
+                elif variant == "two-far":
+                    t = _shift(base, 1, (0, 0, 0)) + _shift(base, 2, (150000, 0, 0))
+                elif variant == "two-near":
+                    t = _shift(base, 1, (0, 0, 0)) + _shift(base, 2, _NEAR)
+                else:
+                    t = _shift(base, 4, (0, 0, 0)) + _shift(base, 9, (0, -150000, 0))
+                tables.append({"tid": f"corpus-{name}-{w}-{variant}", "layout": "corpus-" + variant, "feats": [],
+                               "icn": "?", "ocn": "?", "lines": t})
+    return tables
